@@ -81,7 +81,7 @@ Definition is_cret (c : cpc) : bool := match c with CRet => true | _ => false en
 Definition jcancelled (s : jstate) : bool := c_ext (j_c s) || is_cret (c_pc (j_c s)).
 
 Inductive jlabel :=
-| JScan | JEof | JEofClosed | JTok | JRCancel | JEnq | JDone          (* reader *)
+| JScan | JScanTrunc | JEof | JEofClosed | JTok | JRCancel | JEnq | JDone          (* reader *)
 | JTake (id : nat) | JSend (id : nat) | JDrop (id : nat)               (* workers; id = first line of the job *)
 | JRecv (id : nat) | JTokRel | JProduce | JProduceErr | JParseErr | JProcEnd | JRecvDone | JCtx   (* consumer *)
 | JExt.                                                                (* environment: the caller cancels ctx *)
@@ -114,16 +114,25 @@ Definition jstep (p : jparams) (s : jstate) (l : jlabel) : option jstate :=
   match l with
   (* ---- reader ---- *)
   | JScan =>
-      match r_pc r, r_left r with
-      | RScan, S k =>
+      match r_pc r, r_left r, r_err r with
+      | RScan, S k, false =>
           let cur' := S (r_cur r) in
-          Some (mkjstate (mkreader k cur' (if cur' =? jp_b p then RSelect false else RScan) (r_lread r) (r_err r)) q c)
-      | _, _ => None
+          Some (mkjstate (mkreader k cur' (if cur' =? jp_b p then RSelect false else RScan) (r_lread r) false) q c)
+      | _, _, _ => None
+      end
+  | JScanTrunc =>
+      (* Run has returned and closed the file: the read fails and bufio.Scanner hands out what it has buffered
+         of the current line as a last (truncated) token before Scan becomes false.  At most once. *)
+      match r_pc r, c_pc c, r_err r with
+      | RScan, CRet, false =>
+          let cur' := S (r_cur r) in
+          Some (mkjstate (mkreader (r_left r) cur' (if cur' =? jp_b p then RSelect false else RScan) (r_lread r) true) q c)
+      | _, _, _ => None
       end
   | JEof =>
-      match r_pc r, r_left r with
-      | RScan, O => Some (mkjstate (mkreader 0 (r_cur r) (if 0 <? r_cur r then RSelect true else RSendDone) (r_lread r) (r_err r)) q c)
-      | _, _ => None
+      match r_pc r, r_left r, r_err r with
+      | RScan, O, false => Some (mkjstate (mkreader 0 (r_cur r) (if 0 <? r_cur r then RSelect true else RSendDone) (r_lread r) (r_err r)) q c)
+      | _, _, _ => None
       end
   | JEofClosed =>
       (* Run has returned and its deferred f.Close() has run: the next read of the scanner fails
@@ -250,7 +259,7 @@ Definition jdefined (p : jparams) (s : jstate) (l : jlabel) : bool :=
   match jstep p s l with Some _ => true | None => false end.
 
 Definition jcandidates (s : jstate) : list jlabel :=
-  [JScan; JEof; JEofClosed; JTok; JRCancel; JEnq; JDone; JTokRel; JProduce; JProduceErr; JParseErr; JProcEnd; JRecvDone; JCtx; JExt]
+  [JScan; JScanTrunc; JEof; JEofClosed; JTok; JRCancel; JEnq; JDone; JTokRel; JProduce; JProduceErr; JParseErr; JProcEnd; JRecvDone; JCtx; JExt]
   ++ map JSend (map jstart (q_busy (j_q s))) ++ map JDrop (map jstart (q_busy (j_q s)))
   ++ map JTake (map jstart (q_jobs (j_q s))) ++ map JRecv (map jstart (q_out (j_q s))).
 
